@@ -100,9 +100,10 @@ InterpreterEnv::InterpreterEnv(std::vector<valtype>& stack_in, const CScript& sc
     }
     nOpCount = 0;
     fRequireMinimal = (flags & SCRIPT_VERIFY_MINIMALDATA) != 0;
-    // figure out if p2sh
+    // figure out if p2sh (only a legacy scriptPubKey can be; a witness script of that shape is an ordinary hash lock)
     is_p2sh = (
         (flags & SCRIPT_VERIFY_P2SH) &&
+        sigversion == SigVersion::BASE &&
         script.size() == 23 &&
         script[0] == OP_HASH160 &&
         script[1] == 20 &&
